@@ -178,9 +178,13 @@ pub fn c12_configs(thorough: bool) -> Vec<EpCfg> {
                     c.alph = session_alph(true, mx as u32 + 1);
                     c.alph.pub_q = vec![1, 2];
                     c.alph.erase = true;
+                    // refusals in between: an alias above the peer's Topic Alias Maximum (the limit test has
+                    // passed by then), a packet larger than the peer accepts
+                    c.alph.als = vec![Al::No, Al::Reg(3)];
+                    c.alph.topics = 3;
                     // the peer's Receive Maximum arrives in CONNACK (client) / CONNECT (server)
-                    c.connacks = vec![AckProf { rm: Some(mx), ..AckProf::basic(false) }, AckProf { rm: Some(mx), ..AckProf::basic(true) }, AckProf { rm: Some(1), ..AckProf::basic(true) }];
-                    c.connects = vec![ConnProf { rm: Some(mx), ..ConnProf::basic(true) }, ConnProf { rm: Some(mx), ..ConnProf::basic(false) }, ConnProf { rm: Some(1), ..ConnProf::basic(false) }];
+                    c.connacks = vec![AckProf { rm: Some(mx), tam: Some(2), mps: Some(12), ..AckProf::basic(false) }, AckProf { rm: Some(mx), tam: Some(2), ..AckProf::basic(true) }, AckProf { rm: Some(1), ..AckProf::basic(true) }];
+                    c.connects = vec![ConnProf { rm: Some(mx), tam: Some(2), mps: Some(12), ..ConnProf::basic(true) }, ConnProf { rm: Some(mx), tam: Some(2), ..ConnProf::basic(false) }, ConnProf { rm: Some(1), ..ConnProf::basic(false) }];
                     c.groups = vec!["c12"];
                     v.push(c);
                 }
@@ -279,6 +283,7 @@ pub fn c13_configs(thorough: bool) -> Vec<EpCfg> {
                     peer_acks: vec![AckKind::Puback],
                     peer_ack_ids: vec![1, 2],
                     spontaneous_close: true,
+                    regulate: true,
                     ..Alph::default()
                 };
                 let t = if tam == 0 { None } else { Some(tam) };
@@ -287,6 +292,35 @@ pub fn c13_configs(thorough: bool) -> Vec<EpCfg> {
                 c.connects = vec![ConnProf { tam: t, rm: Some(1), ..ConnProf::basic(true) }, ConnProf { tam: t, rm: Some(1), ..ConnProf::basic(false) }, ConnProf { tam: t, ..ConnProf::basic(true) }];
                 c.groups = vec!["c13"];
                 v.push(c);
+            }
+        }
+    }
+    // automatic mapping next to a tight peer Maximum Packet Size: a rewritten packet may not fit, the
+    // table must then stay as the receiver knows it (PUBLISH q0 'a'/'p' = 7 bytes, 'bb' = 8, +alias = +3)
+    for role in [RoleK::Client, RoleK::Server] {
+        for tam in [1u16, 2] {
+            for mode in ["auto-map", "auto-replace"] {
+                for mps in [7u32, 8, 9, 10, 11, 12] {
+                    if !thorough && (role == RoleK::Server || tam == 2 || mode == "auto-replace") && !(role == RoleK::Server && tam == 1 && mode == "auto-map" && mps == 9) {
+                        continue;
+                    }
+                    let mut c = EpCfg::new(&cfg_name("c13", role, Some(Ver::V5), &format!("tam={tam} {mode} peer-mps={mps}")), role, Some(Ver::V5));
+                    c.auto_pub = true;
+                    c.auto_map = mode == "auto-map";
+                    c.auto_replace = mode == "auto-replace";
+                    c.window = 2;
+                    c.alph = Alph { pub_q: vec![0, 1], topics: 3, als: vec![Al::No, Al::Reg(1), Al::Reg(2)], peer_acks: vec![AckKind::Puback], peer_ack_ids: vec![1, 2], spontaneous_close: true, regulate: true, ..Alph::default() };
+                    // the peer's limits arrive in CONNACK (client) / CONNECT (server); the own packets carry none
+                    if role == RoleK::Client {
+                        c.connacks = vec![AckProf { tam: Some(tam), mps: Some(mps), ..AckProf::basic(false) }];
+                        c.connects = vec![ConnProf::basic(true)];
+                    } else {
+                        c.connects = vec![ConnProf { tam: Some(tam), mps: Some(mps), ..ConnProf::basic(true) }];
+                        c.connacks = vec![AckProf::basic(false)];
+                    }
+                    c.groups = vec!["c13"];
+                    v.push(c);
+                }
             }
         }
     }
@@ -308,7 +342,7 @@ pub fn c13_configs(thorough: bool) -> Vec<EpCfg> {
 }
 pub fn c13(rep: &mut Report) {
     run_all(rep, c13_configs(rep.thorough()), 200_000, 5.0);
-    for f in ["c13.bind", "c13.rebind", "c13.sent-by-alias", "c13.recv-invalid-alias", "c13.recv-aliased-delivered", "pub.refused", "closed", "session.resumed"] {
+    for f in ["c13.bind", "c13.rebind", "c13.sent-by-alias", "c13.regulate-ok", "c13.regulate-refused", "c13.recv-invalid-alias", "c13.recv-aliased-delivered", "pub.refused", "closed", "session.resumed"] {
         rep.floor(f, 1);
     }
     rep.assume("an empty-topic PUBLISH with alias a is only issued by the application if an earlier PUBLISH on the same connection that registered a was transmitted, and never in auto-map mode (there the library owns the bindings and may evict them)");
@@ -351,8 +385,15 @@ pub fn c14_configs(thorough: bool) -> Vec<EpCfg> {
                     ..Alph::default()
                 };
                 c.offline = true;
-                c.connacks = vec![AckProf { mps: Some(l), tam: Some(1), ..AckProf::basic(true) }, AckProf { mps: Some(l), tam: Some(1), ..AckProf::basic(false) }, AckProf { tam: Some(1), ..AckProf::basic(true) }];
-                c.connects = vec![ConnProf { mps: Some(l), tam: Some(1), ..ConnProf::basic(false) }, ConnProf { mps: Some(l), tam: Some(1), ..ConnProf::basic(true) }, ConnProf { tam: Some(1), ..ConnProf::basic(false) }];
+                // the peer's limit arrives in CONNACK (client) / CONNECT (server); a second profile without
+                // limit lets packets be stored first and meet the limit only on resume
+                if role == RoleK::Client {
+                    c.connacks = vec![AckProf { mps: Some(l), tam: Some(1), ..AckProf::basic(true) }, AckProf { mps: Some(l), tam: Some(1), ..AckProf::basic(false) }, AckProf { tam: Some(1), ..AckProf::basic(true) }];
+                    c.connects = vec![ConnProf::basic(false), ConnProf::basic(true)];
+                } else {
+                    c.connects = vec![ConnProf { mps: Some(l), tam: Some(1), ..ConnProf::basic(false) }, ConnProf { mps: Some(l), tam: Some(1), ..ConnProf::basic(true) }, ConnProf { tam: Some(1), ..ConnProf::basic(false) }];
+                    c.connacks = vec![AckProf::basic(true), AckProf::basic(false)];
+                }
                 c.groups = vec!["c14"];
                 v.push(c);
             }
@@ -380,8 +421,14 @@ pub fn c14_configs(thorough: bool) -> Vec<EpCfg> {
                 spontaneous_close: true,
                 ..Alph::default()
             };
-            c.connects = vec![ConnProf { mps: Some(own), ..ConnProf::basic(true) }];
-            c.connacks = vec![AckProf { mps: Some(own), ..AckProf::basic(false) }];
+            // the own limit is announced in CONNECT (client) / CONNACK (server)
+            if role == RoleK::Client {
+                c.connects = vec![ConnProf { mps: Some(own), ..ConnProf::basic(true) }];
+                c.connacks = vec![AckProf::basic(false)];
+            } else {
+                c.connects = vec![ConnProf::basic(true)];
+                c.connacks = vec![AckProf { mps: Some(own), ..AckProf::basic(false) }];
+            }
             c.groups = vec!["c14"];
             v.push(c);
         }
